@@ -352,6 +352,19 @@ func (w *World) globalLookup(h *Heap, pkgPath string) func(string) (TV, bool) {
 		if sp == nil {
 			return TV{}, false
 		}
+		if i := strings.Index(name, "."); i > 0 {
+			// imported.Var: a package-level variable of a package this one imports
+			var dep *ssa.Package
+			for _, imp := range sp.Pkg.Imports() {
+				if imp.Name() == name[:i] {
+					dep = sp.Prog.ImportedPackage(imp.Path())
+				}
+			}
+			if dep == nil {
+				return TV{}, false
+			}
+			sp, name = dep, name[i+1:]
+		}
 		g, ok := sp.Members[name].(*ssa.Global)
 		if !ok {
 			return TV{}, false
